@@ -18,7 +18,7 @@ META = {
     "rule": ("case = module-rooted builder program (JSON AST, + optional metadata / order links); distinct by JSON; "
              "non-trivial as for C01"),
     "required": ["monitor:repo-test-documents", "monitor:binding-contract", "monitor:shadow-read", "monitor:M-HIER", "monitor:M-PORTS",
-                 "monitor:M-LINK", "monitor:M-SYM", "monitor:M-CONST", "monitor:M-ORDER", "monitor:M-META", "monitor:M-SIG", "monitor:M-FUNC-BODY",
+                 "monitor:M-LINK", "monitor:M-SYM", "monitor:M-CONST", "monitor:M-ORDER", "monitor:M-META", "monitor:M-SIG", "monitor:M-FUNC-BODY", "monitor:export-twice",
                  "feature:const-loaded-again", "feature:function-constant",
                  "feature:call", "feature:order-link", "feature:cfg", "feature:conditional", "feature:metadata",
                  "feature:const-loaded", "feature:unused-output", "feature:poly-func"],
@@ -390,6 +390,10 @@ def check_export(ctx, h, case, stratum, reads, body_region=None):
         ma = sh.attrs(m)
         sh.region(ma.get("root"), "root")
         ctx.count("monitor:shadow-read", sh.n)
+        # exporting is a pure query: a second export of the same HUGR gives the same module
+        ctx.count("monitor:export-twice")
+        if repr(h.to_model()) != repr(m):
+            bad("second-export-differs", "to_model() twice", "the same module", "differs")
 
     ports_of = {}
 
